@@ -1,2 +1,3 @@
 import EdzedProofs.Basic
 import EdzedProofs.Counter
+import EdzedProofs.Simulate
